@@ -87,6 +87,17 @@ def match_brace(s, i):
     raise TranslateError('unbalanced braces')
 
 
+def find_impl(src, impl_re):
+    """text of the (single) impl block matched by impl_re"""
+    ms = list(re.finditer(impl_re, src)) if impl_re else []
+    if len(ms) != 1:
+        raise TranslateError('impl block not found or ambiguous: /%s/' % impl_re)
+    i = src.find('{', ms[0].end())
+    if i < 0:
+        raise TranslateError('impl block without a body: /%s/' % impl_re)
+    return src[i + 1:match_brace(src, i)]
+
+
 def find_fn(src, impl_re, fname):
     """source text of `fn fname ... { body }` inside the impl block matched by impl_re"""
     if impl_re:
@@ -130,7 +141,7 @@ def find_fn(src, impl_re, fname):
 # ------------------------------------------------------------------ parser (AST = tuples)
 
 class Parser:
-    BIN = {'||': 1, '&&': 2, '==': 3, '!=': 3, '<': 3, '<=': 3, '+': 6, '-': 6, '*': 7, '/': 7}
+    BIN = {'||': 1, '&&': 2, '==': 3, '!=': 3, '<': 3, '<=': 3, '+': 6, '-': 6, '*': 7, '/': 7, '%': 7}
     ASSIGN = ('=', '+=', '-=', '*=')
 
     def __init__(self, toks, what):
@@ -233,6 +244,11 @@ class Parser:
                 self.err('expression in the middle of a block')
             if self.accept(';'):
                 continue
+            if self.at('use') and self.peek(1)[0] == 'id':
+                while not self.accept(';'):
+                    if self.next()[0] == 'eof':
+                        self.err('unterminated `use`')
+                continue
             if self.at('let'):
                 stmts.append(self.let())
             elif self.at('if'):
@@ -272,7 +288,7 @@ class Parser:
         """`debug_assert!(cond [, "message" ..]);` -- the only macro of the subset"""
         name = self.ident()
         self.next()
-        if name != 'debug_assert':
+        if name not in ('debug_assert', 'assert'):
             self.err('unsupported macro `%s!`' % name)
         self.expect('(')
         saved, self.nostruct = self.nostruct, False
@@ -373,6 +389,10 @@ class Parser:
         arms = {}
         while not self.at('}'):
             pat = self.next()
+            if pat == ('id', 'Compress') and self.at('::') and self.peek(1) in (('id', 'Yes'), ('id', 'No')):
+                # `match compress { Compress::Yes => a, Compress::No => b }`: the mode as a boolean (Yes = true)
+                self.next()
+                pat = ('id', 'true' if self.next()[1] == 'Yes' else 'false')
             if pat not in (('id', 'true'), ('id', 'false')) or pat[1] in arms:
                 self.err('unsupported `match` pattern `%s`' % pat[1])
             self.expect('=>')
@@ -393,7 +413,7 @@ class Parser:
         while True:
             x = self.peek()
             if x[0] != 'sym' or x[1] not in self.BIN or self.BIN[x[1]] < minp:
-                if x[0] == 'sym' and x[1] in ('%', '>', '|', '&') and minp == 0:
+                if x[0] == 'sym' and x[1] in ('>', '|', '&') and minp == 0:
                     self.err('unsupported operator `%s`' % x[1])
                 return l
             op = self.next()[1]
@@ -435,6 +455,10 @@ class Parser:
                 if self.peek()[0] != 'id':
                     self.err('unsupported field access')
                 name = self.ident()
+                if self.at('::') and self.peek(1) == ('sym', '<') and self.peek(2)[0] == 'id' and self.peek(3) == ('sym', '>') \
+                   and self.peek(4) == ('sym', '('):
+                    name = '%s::<%s>' % (name, self.peek(2)[1])
+                    self.i += 4
                 if self.at('::'):
                     self.err('unsupported turbofish')
                 if self.at('('):
@@ -447,7 +471,16 @@ class Parser:
                 self.next()
                 e = ('try', e)
             elif self.at('['):
-                self.err('unsupported postfix `%s`' % self.peek()[1])
+                self.next()
+                saved, self.nostruct = self.nostruct, False
+                i = self.expr(0)
+                self.nostruct = saved
+                self.expect(']')
+                e = ('index', e, i)
+            elif self.at('as') and self.peek(1) == ('id', 'usize'):
+                self.next()
+                self.next()
+                e = ('cast', e, 'usize')
             else:
                 return e
 
@@ -501,6 +534,11 @@ class Parser:
                     break
             self.expect(']')
             return ('array', es)
+        if self.at('||') and self.peek()[0] == 'sym':
+            self.next()
+            if self.at('{'):
+                return ('closure', [], self.block())
+            return ('closure', [], ([], self.expr(0)))
         if self.accept('|'):
             ps = []
             while not self.at('|'):
@@ -706,6 +744,10 @@ TYPES = {
     # phase 3: a pair of scalars (Option<(F, F)> payloads), affine points over a quadratic extension
     'PairK': [('0', 'K'), ('1', 'K')],
     'SWAffSQ': [('x', 'Quad'), ('y', 'Quad'), ('infinity', 'bool')],
+    # phase 4: towers seen down to the prime field (mul_by_fp helpers)
+    'QuadQuad': [('c0', 'Quad'), ('c1', 'Quad')],
+    'CubicQuad': [('c0', 'Quad'), ('c1', 'Quad'), ('c2', 'Quad')],
+    'QuadCubicQuad': [('c0', 'CubicQuad'), ('c1', 'CubicQuad')],
 }
 # phase 3: enumerations of the generated file (constructor names per Rust variant)
 ENUMS = {
@@ -724,8 +766,12 @@ def gty(ty):
         return 'bool'
     if ty == 'SWAff':
         return 'option (T * T)'
-    if ty == 'Scalar':
+    if ty in ('Scalar', 'Zint'):
         return 'Z'
+    if ty == 'nat':
+        return 'nat'
+    if ty.startswith('Writer:'):
+        return 'list (T * option %s)' % ENUMS[ty[7:]][0]
     if ty.startswith('enum:'):
         return ENUMS[ty[5:]][0]
     if ty.startswith('opt:'):
@@ -1038,6 +1084,10 @@ class Exec:
             return self.eval(t, env)
         if k == 'try':
             o = self.rv(self.eval(e[1], env))
+            if o.ty == 'unitres':
+                # `field.serialize_..(&mut writer)?`: the item is in the writer's list; an error of the field
+                # serializer ends the whole function with that error (the reading of the item list: first failure)
+                return Val('unit', expr='tt')
             if o.ty != 'optsqrt':
                 self.err('`?` on something else than `x.sqrt()`')
             if not self.tgt['ret'].startswith('opt:'):
@@ -1062,6 +1112,22 @@ class Exec:
             if sorted(given) != sorted(f for f, _ in TYPES[ty]):
                 self.err('struct literal of %s with fields %s' % (ty, sorted(given)))
             return self.construct(ty, [given[f] for f, _ in TYPES[ty]])
+        if k == 'cast':
+            v = self.rv(self.eval(e[1], env))
+            if v.ty not in ('nat', 'int', 'Zint'):
+                self.err('`as usize` on a %s' % v.ty)
+            return v
+        if k == 'index':
+            # TABLE[i]: the table is a function parameter `Z -> entry`
+            if e[1][0] != 'path':
+                self.err('indexing of something else than a configuration table')
+            h = self.hook_for(e[1][1])
+            if h is None or h['kind'] != 'table':
+                self.err('unknown table `%s`' % '::'.join(e[1][1]))
+            i = self.rv(self.eval(e[2], env))
+            if i.ty != 'Zint':
+                self.err('table index of type %s' % i.ty)
+            return Val(h['ret'], expr=app(h['param'], i.expr))
         if k == 'closure':
             self.err('closure outside `.map(..)`')
         self.err('unsupported expression %r' % (k,))
@@ -1120,6 +1186,10 @@ class Exec:
         if h is not None:
             if h['kind'] == 'const':
                 return Val(h['ret'], expr=h['param'])
+            if h['kind'] == 'intconst':
+                return Val('int', expr=str(h['value']))
+            if h['kind'] == 'table':
+                self.err('table `%s` used without an index' % '::'.join(segs))
             return HookAlias(h)
         self.err('unknown path `%s`' % '::'.join(segs))
 
@@ -1165,10 +1235,37 @@ class Exec:
             else:
                 self.err('unsupported comparison %s == %s' % (l.ty, r.ty))
             return Val('bool', expr=t if op == '==' else app('negb', t))
+        if op == '%':
+            if l.ty != 'Zint' or r.ty not in ('int', 'Zint'):
+                self.err('unsupported `%%` on %s, %s' % (l.ty, r.ty))
+            return Val('Zint', expr='(Z.modulo %s %s)' % (par(l.expr), par(r.expr)))
+        if op == '+' and l.ty == 'Zint' and r.ty == 'Zint':
+            return Val('Zint', expr='(Z.add %s %s)' % (par(l.expr), par(r.expr)))
+        if op == '*' and {l.ty, r.ty} == {'int', 'nat'}:
+            return Val('nat', expr='(%s * %s)%%nat' % (par(l.expr), par(r.expr)))
+        if op in ('+', '-', '*') and l.ty not in self.dict and l.ty in TYPES:
+            # by-value operator wrappers (impl_additive_ops_from_ref! / impl_multiplicative_ops_from_ref!,
+            # `Add<T: Borrow<Affine>>`): `let mut result = self; result op= &other; result`
+            d = self.op_method(l.ty, op, r.ty)
+            if d is not None:
+                tmp = Slot(l, 'tmp')
+                self.call_target(d, (tmp, []), [], env, vals=[r])
+                return self.rv(Ref(tmp, []))
         if l.ty != r.ty:
             self.err('operand types differ: %s %s %s' % (l.ty, op, r.ty))
         f = {'+': 'fadd', '-': 'fsub', '*': 'fmul'}[op]
         return Val(l.ty, expr=app('%s %s' % (f, self.dict_of(l.ty)), self.whole(l), self.whole(r)))
+
+    def op_method(self, lty, op, rty):
+        """the translated `op`_assign(&rhs) of a struct type without dictionary (None if there is none)"""
+        name = {'+': 'add_assign', '-': 'sub_assign', '*': 'mul_assign'}[op]
+        m = self.methods()
+        for key in ((lty, name), (lty, name + '_' + rty), (lty, name + '_' + {'SWAffS': 'SWAff'}.get(rty, rty))):
+            d = m.get(key)
+            if d is not None and d['ret'] == 'self' and len(d['args']) == 1 and \
+               d['args'][0][1] in (rty, {'SWAffS': 'SWAff'}.get(rty)):
+                return d
+        return None
 
     def sum_of_products(self, a, b):
         if a.ty != 'arr' or b.ty != 'arr' or len(a.items) != len(b.items) or not a.items:
@@ -1413,6 +1510,60 @@ class Exec:
             if name != 'clone' and v.ty != 'Scalar':
                 self.err('`.%s()` on a %s' % (name, v.ty))
             return v
+        if name in self.emit_hooks():
+            h = self.emit_hooks()[name]
+            v = self.rv(self.eval(recv, env))
+            if v.ty != 'K' or len(args) != len(h['args']):
+                self.err('`.%s` on a %s / with %d arguments' % (name, v.ty, len(args)))
+            w = args[0][2] if (args[0][0] == 'un' and args[0][1] == '&mut') else args[0]
+            pl = self.place(w, env)
+            if pl is None or not self.read(*pl).ty.startswith('Writer:'):
+                self.err('`.%s`: the first argument must be the writer' % name)
+            wv = self.read(*pl)
+            flag = 'None'
+            for a, t in list(zip(args, h['args']))[1:]:
+                av = self.rv(self.eval(a, env))
+                if t == 'flags':
+                    if av.ty != 'enum:' + wv.ty[7:]:
+                        self.err('`.%s`: flags of type %s' % (name, av.ty))
+                    flag = app('Some', av.expr)
+                elif av.ty != t:
+                    self.err('`.%s`: unexpected argument of type %s' % (name, av.ty))
+            self.write(pl[0], pl[1], Val(wv.ty, expr='(%s ++ [(%s, %s)])' % (wv.expr, v.expr, flag)))
+            return Val('unitres', expr='tt')
+        if name in self.hooks and self.hooks[name]['kind'] == 'sizeconst' and not args:
+            v = self.rv(self.eval(recv, env))
+            if v.ty != 'K':
+                self.err('`.%s()` on a %s' % (name, v.ty))
+            return Val('Zint', expr=self.hooks[name]['param'])
+        if name == 'not' and not args:
+            c = self.rv(self.eval(recv, env))
+            if c.ty != 'bool':
+                self.err('`.not()` on a %s' % c.ty)
+            return Val('bool', expr=app('negb', c.expr))
+        if name == 'then' and len(args) == 1 and args[0][0] == 'closure' and not args[0][1]:
+            # `c.then(|| { ..; v })`: Some(v) when c (the closure runs only then), else None
+            c = self.rv(self.eval(recv, env))
+            if c.ty != 'bool':
+                self.err('`.then(..)` on a %s' % c.ty)
+            saved, self.cur = self.cur, []
+            e2 = env.clone()
+            e2.scopes.append({})
+            stmts, tail = args[0][2]
+            if tail is None:
+                self.err('closure without a value')
+            for st in stmts:
+                if st[0] not in ('let', 'assign', 'expr'):
+                    self.err('control flow inside a closure')
+                self.simple(st, e2)
+            v = self.rv(self.eval(tail, e2))
+            lets, self.cur = self.cur, saved
+            if any(l[0] != 'let' for l in lets):
+                self.err('panic inside a closure')
+            if v.ty not in TYPES and v.ty != 'K':
+                self.err('`.then` closure returning a %s' % v.ty)
+            body = ''.join('let %s := %s in ' % (n, t) for (_, n, t) in lets)
+            return Val('opt:' + v.ty, expr='(if %s then %s%s else None)' % (c.expr, body, app('Some', self.whole(v))))
         if name == 'then_some' and len(args) == 1:
             c = self.rv(self.eval(recv, env))
             v = self.rv(self.eval(args[0], env))
@@ -1534,6 +1685,11 @@ class Exec:
             if (rty, name) in self.method_hooks():
                 h = self.method_hooks()[(rty, name)]
                 av = [self.rv(self.eval(a, env)) for a in args]
+                if h.get('keep_args'):
+                    if [v.ty for v in av] != h.get('args', []):
+                        self.err('%s: unexpected arguments' % name)
+                    self.write(p[0], p[1], Val(rty, expr=app(h['param'], *([v.expr for v in av] + [self.whole(self.read(*p))]))))
+                    return Ref(p[0], p[1])
                 if [('usize' if v.ty == 'int' else v.ty) for v in av] != h.get('args', []):
                     self.err('%s: unexpected arguments' % name)
                 self.write(p[0], p[1], Val(rty, expr=app(h['param'], self.whole(self.read(*p)))))
@@ -1605,6 +1761,9 @@ class Exec:
             return self.call_target(m[(v.ty, name)], tmp, args, env)
         return None
 
+    def emit_hooks(self):
+        return {h['rust']: h for h in self.tgt.get('hooks', []) if h['kind'] == 'emit'}
+
     def method_hooks(self):
         return {(h['recv'], h['rust']): h for h in self.tgt.get('hooks', []) if h['kind'] == 'method'}
 
@@ -1620,9 +1779,9 @@ class Exec:
                 env.declare(name, Slot(v, name))          # a reference: alias of the place
                 return
             v = self.rv(v)
-            if v.ty in ('optinv', 'optxy', 'intarr', 'int', 'nat', 'optsqrt', 'legendre', 'str') or v.ty.startswith('opt:'):
+            if v.ty in ('optinv', 'optxy', 'intarr', 'int', 'optsqrt', 'legendre', 'str') or v.ty.startswith('opt:'):
                 self.err('unsupported let of a %s' % v.ty)
-            if v.ty == 'arr':
+            if v.ty in ('arr', 'nat', 'Zint'):
                 env.declare(name, Slot(v, name))
                 return
             env.declare(name, Slot(self.bind(name, v), name))
@@ -1637,6 +1796,11 @@ class Exec:
                 if sl is not None and isinstance(sl.val, Ref):
                     self.err('assignment to the reference variable `%s` itself (write `*%s`)' % (lhs[1][0], lhs[1][0]))
             r = self.rv(self.eval(rhs, env))
+            if op != '=' and self.read(*p).ty not in self.dict and self.read(*p).ty in TYPES:
+                d = self.op_method(self.read(*p).ty, op[0], r.ty)
+                if d is not None:
+                    self.call_target(d, p, [], env, vals=[r])
+                    return
             if op != '=':
                 l = self.read(*p)
                 if l.ty != r.ty:
@@ -1699,7 +1863,9 @@ class Exec:
     def result(self, env, v):
         """final value of the function"""
         ret = self.tgt['ret']
-        if ret == 'self':
+        if ret == 'self' and isinstance(self.tgt.get('out'), list):
+            t = '(' + ', '.join(self.whole(self.read(env.lookup(o), [])) for o in self.tgt['out']) + ')'
+        elif ret == 'self':
             t = self.whole(self.read(env.lookup(self.tgt.get('out', 'self')), []))
         else:
             if v is None:
@@ -1804,7 +1970,7 @@ class Exec:
                 if all(v is None for v in leaves):
                     continue
                 if not all(isinstance(v, Val) for v in leaves) or len(set(v.ty for v in leaves)) != 1 \
-                   or leaves[0].ty not in ('K', 'bool') + tuple(TYPES):
+                   or (leaves[0].ty not in ('K', 'bool') + tuple(TYPES) and not leaves[0].ty.startswith('enum:')):
                     self.err('variable `%s` is not initialised in every branch' % sl.hint)
                 items.append((key, [], leaves[0].ty))
                 continue
@@ -1880,6 +2046,11 @@ class Exec:
         text = find_fn(src, t.get('impl'), t['fn'])
         name, params, body = Parser(tokenize(text), t['name']).fn()
         want = (['self'] if t.get('method', True) else []) + [a[0] for a in t['args']]
+        if '*' in want and len(params) == len(want):
+            # a parameter the table does not name (`_`, `_elem`, `elem`, ..): whatever the source calls it
+            off = len(want) - len(t['args'])
+            t['args'] = [((params[off + i] if a[0] == '*' else a[0]), a[1], a[2]) for i, a in enumerate(t['args'])]
+            want = want[:off] + [a[0] for a in t['args']]
         if params != want:
             self.err('parameter list changed: %s (expected %s)' % (params, want))
         env = Env()
@@ -1893,7 +2064,7 @@ class Exec:
         for (rn, ty, gn) in t['args']:
             self.used.add(gn)
             if ty in TYPES:
-                v, pat = self.param_struct(ty, t.get('argnames', {}).get(rn))
+                v, pat = self.param_struct(ty, t.get('argnames', {}).get(rn) or t.get('argnames', {}).get('*'))
                 pre.append("  let '%s := %s in" % (pat, gn))
             else:
                 v = Val(ty, expr=gn)
@@ -1903,13 +2074,23 @@ class Exec:
         for h in t.get('hooks', []):
             if h['kind'] == 'boolconst':
                 h['args_ast'] = [Parser(tokenize(a), t['name']).expr(0) for a in h['args_src']]
+            if h['kind'] == 'intconst':
+                # `const NAME: usize = <literal>;` of the same impl block: the literal is part of the formula
+                blk = find_impl(src, t.get('impl'))
+                ms = re.findall(r'\bconst\s+%s\s*:\s*usize\s*=\s*(\d[\d_]*)\s*;' % re.escape(h['rust'].split('::')[-1]), blk)
+                if len(ms) != 1:
+                    self.err('constant %s not found as an integer literal' % h['rust'])
+                h['value'] = int(ms[0].replace('_', ''))
         stmts = Lifter(t['name']).stmts(tailify(body)[0])
         final = K(lambda e, i2: [i2 + self.result(e, None)], True)
         lines = self.run(stmts, env, final, '  ')
         ret = t['ret']
-        if ret == 'self':
-            ret = t['selfty'] if 'out' not in t else [a[1] for a in t['args'] if a[0] == t['out']][0]
-        rty = gty(ret)
+        if ret == 'self' and isinstance(t.get('out'), list):
+            rty = '(' + ' * '.join(gty([a[1] for a in t['args'] if a[0] == o][0]) for o in t['out']) + ')'
+        else:
+            if ret == 'self':
+                ret = t['selfty'] if 'out' not in t else [a[1] for a in t['args'] if a[0] == t['out']][0]
+            rty = gty(ret)
         if t.get('may_panic'):
             rty = 'gen_result %s' % par(rty)
         hp = []
@@ -1920,6 +2101,14 @@ class Exec:
                 hp.append('(%s : %s)' % (h['param'], gty(h['ret'])))
             elif h['kind'] == 'boolconst':
                 hp.append('(%s : bool)' % h['param'])
+            elif h['kind'] in ('intconst', 'emit'):
+                pass
+            elif h['kind'] == 'sizeconst':
+                hp.append('(%s : Z)' % h['param'])
+            elif h['kind'] == 'table':
+                hp.append('(%s : Z -> %s)' % (h['param'], gty(h['ret'])))
+            elif h['kind'] == 'method' and h.get('keep_args'):
+                hp.append('(%s : %s)' % (h['param'], ' -> '.join(gty(x) for x in h['args'] + [h['recv'], h['recv']])))
             elif h['kind'] == 'method':
                 hp.append('(%s : %s -> %s)' % (h['param'], gty(h['recv']), gty(h['recv'])))
             elif h['kind'] == 'inplace2':
@@ -1930,7 +2119,7 @@ class Exec:
                 hp.append('(%s : %s)' % (h['param'], ' -> '.join(gty(x) for x in [a for a in h['args'] if a != 'usize'] + [h['ret']])))
         head = 'Definition %s {T : Type} (F : Fops T) %s : %s :=' % (t['name'], ' '.join(hp + binders), rty)
         head = re.sub(r'  +', ' ', head)
-        cm = '(* %s :: %s%s *)' % (t['file'], (re.sub(r'\\b|\\', '', t['impl']) + ' :: ') if t.get('impl') else '', t['fn'])
+        cm = '(* %s :: %s%s *)' % (t['file'], (t.get('impldoc', re.sub(r'\\b|\\', '', t['impl'])) + ' :: ') if t.get('impl') else '', t['fn'])
         lines[-1] = lines[-1] + '.'
         return '\n'.join([cm, head] + pre + lines) + '\n'
 
@@ -2315,6 +2504,261 @@ TARGETS2 = [
                 H('p_power_endomorphism', 'fn', 'p_power_endomorphism', ['SWAffS'], 'SWAffS')]),
 ]
 
+# ------------------------------------------------------------------ phase 4: third target table
+
+def nr_override(name, file, impl, fn, nargs, hooks=()):
+    """a per-curve override of a non-residue hook on base-field elements: `(fe: &mut Fp) -> &mut Fp` or
+    `(y: &mut Fp, x: &Fp)`"""
+    return dict(name=name, file=file, impl=impl, fn=fn, method=False, selfty=None, mutrefs=[nargs[0]], out=nargs[0],
+                args=[(a, 'K', a) for a in nargs], ret='self', hooks=list(hooks))
+
+
+def fq2_overrides(tag, file, fe, fns):
+    names = {'mul_fp_by_nonresidue_in_place': ('mul_fp_by_nonresidue', [fe]),
+             'mul_fp_by_nonresidue_and_add': ('mul_fp_by_nonresidue_and_add', ['y', 'x']),
+             'mul_fp_by_nonresidue_plus_one_and_add': ('mul_fp_by_nonresidue_plus_one_and_add', ['y', 'x']),
+             'sub_and_mul_fp_by_nonresidue': ('sub_and_mul_fp_by_nonresidue', ['y', 'x'])}
+    return [nr_override('gen_%s_fq2_%s' % (tag, names[f][0]), file, r'impl Fp2Config for Fq2Config', f, names[f][1])
+            for f in fns]
+
+
+FQ2_ALL = ['mul_fp_by_nonresidue_in_place', 'mul_fp_by_nonresidue_and_add', 'mul_fp_by_nonresidue_plus_one_and_add',
+           'sub_and_mul_fp_by_nonresidue']
+
+
+def fq6_override(tag, file, hooks=()):
+    return dict(name='gen_%s_fq6_mul_fp2_by_nonresidue' % tag, file=file, impl=r'impl Fp6Config for Fq6Config',
+                fn='mul_fp2_by_nonresidue_in_place', method=False, selfty=None, mutrefs=['fe'], out='fe',
+                args=[('fe', 'Quad', 'fe')], argnames={'fe': ['fe0', 'fe1']}, ret='self', ctors={'Fq2': 'Quad'},
+                hooks=list(hooks))
+
+
+FP2_NR_BELOW = H('Fq2Config::mul_fp_by_nonresidue_in_place', 'inplace', 'fp2_nr_mul', ['K'])
+
+
+def mul_by_a_override(tag, file, kind, arg, ty='K', **kw):
+    return dict(name='gen_%s_mul_by_a' % tag, file=file, impl=r'impl\s+(?:\w+::)?%sCurveConfig\s+for\s+\w+' % kind,
+                impldoc='impl %sCurveConfig' % kind, fn='mul_by_a', method=False, selfty=None, args=[('*', ty, 'e')], ret=ty,
+                hooks=[], **kw)
+
+
+MNT4_A = dict(argnames={'*': ['e0', 'e1']}, ctors={'Fq2': 'Quad'})
+MNT6_A = dict(argnames={'*': ['e0', 'e1', 'e2']}, ctors={'Fq3': 'Cubic'})
+MNT_A_HOOKS = [H('MUL_BY_A_C0', 'const', 'mul_by_a_c0'), H('MUL_BY_A_C1', 'const', 'mul_by_a_c1'),
+               H('MUL_BY_A_C2', 'const', 'mul_by_a_c2')]
+
+# (tag, file under /repo, SW|TE, name of the parameter): the bodies `zero()`, `-elem`, `elem`, `-(4 elem + elem)`
+MUL_BY_A_SIMPLE = [
+    ('bls12_377_g1', 'curves/bls12_377/src/curves/g1.rs', 'SW', '_'),
+    ('bls12_377_g1_te', 'curves/bls12_377/src/curves/g1.rs', 'TE', 'elem'),
+    ('bls12_377_g2', 'curves/bls12_377/src/curves/g2.rs', 'SW', '_'),
+    ('bls12_381_g1', 'curves/bls12_381/src/curves/g1.rs', 'SW', '_'),
+    ('bls12_381_g2', 'curves/bls12_381/src/curves/g2.rs', 'SW', '_'),
+    ('bn254_g1', 'curves/bn254/src/curves/g1.rs', 'SW', '_'),
+    ('bn254_g2', 'curves/bn254/src/curves/g2.rs', 'SW', '_'),
+    ('bw6_761_g1', 'curves/bw6_761/src/curves/g1.rs', 'SW', '_elem'),
+    ('bw6_761_g2', 'curves/bw6_761/src/curves/g2.rs', 'SW', '_elem'),
+    ('bw6_767_g1', 'curves/bw6_767/src/curves/g1.rs', 'SW', '_elem'),
+    ('bw6_767_g2', 'curves/bw6_767/src/curves/g2.rs', 'SW', '_elem'),
+    ('ed25519', 'curves/ed25519/src/curves/mod.rs', 'TE', 'elem'),
+    ('ed_on_bls12_377', 'curves/ed_on_bls12_377/src/curves/mod.rs', 'TE', 'elem'),
+    ('ed_on_bls12_381', 'curves/ed_on_bls12_381/src/curves/mod.rs', 'TE', 'elem'),
+    ('bandersnatch', 'curves/ed_on_bls12_381_bandersnatch/src/curves/mod.rs', 'TE', 'elem'),
+    ('ed_on_bn254', 'curves/ed_on_bn254/src/curves/mod.rs', 'TE', 'elem'),
+    ('ed_on_cp6_782', 'curves/ed_on_cp6_782/src/curves/mod.rs', 'TE', 'elem'),
+    ('ed_on_mnt4_298', 'curves/ed_on_mnt4_298/src/curves/mod.rs', 'TE', 'elem'),
+    ('ed_on_mnt4_753', 'curves/ed_on_mnt4_753/src/curves/mod.rs', 'TE', 'elem'),
+    ('grumpkin', 'curves/grumpkin/src/curves/mod.rs', 'SW', '_'),
+    ('pallas', 'curves/pallas/src/curves/mod.rs', 'SW', '_'),
+    ('secp256k1', 'curves/secp256k1/src/curves/mod.rs', 'SW', '_'),
+    ('secq256k1', 'curves/secq256k1/src/curves/mod.rs', 'SW', '_'),
+    ('vesta', 'curves/vesta/src/curves/mod.rs', 'SW', '_'),
+    ('test_bn384_g1', 'test-curves/src/bn384_small_two_adicity/g1.rs', 'SW', '_'),
+    ('test_secp256k1', 'test-curves/src/secp256k1/g1.rs', 'SW', '_'),
+    ('test_bls12_381_g1', 'test-curves/src/bls12_381/g1.rs', 'SW', '_'),
+    ('test_bls12_381_g2', 'test-curves/src/bls12_381/g2.rs', 'SW', '_'),
+    ('test_ed_on_bls12_381', 'test-curves/src/ed_on_bls12_381/g.rs', 'TE', 'elem'),
+]
+
+FP2 = 'ff/src/fields/models/fp2.rs'
+FP3 = 'ff/src/fields/models/fp3.rs'
+FP4 = 'ff/src/fields/models/fp4.rs'
+QQN = dict(selfty='QuadQuad', selfparam='s', selfnames=[['s00', 's01'], ['s10', 's11']])
+CQN = dict(selfty='CubicQuad', selfparam='s', selfnames=[['s00', 's01'], ['s10', 's11'], ['s20', 's21']])
+QCQN = dict(selfty='QuadCubicQuad', selfparam='s',
+            selfnames=[[['s000', 's001'], ['s010', 's011'], ['s020', 's021']], [['s100', 's101'], ['s110', 's111'], ['s120', 's121']]])
+
+
+def cyc_inv(tag, file, cfg):
+    return dict(name='gen_%s_cyclotomic_inverse_in_place' % tag, file=file,
+                impl=r'impl<P: %s> CyclotomicMultSubgroup for \w+<P>' % cfg, fn='cyclotomic_inverse_in_place',
+                args=[], ret='opt:Quad', hooks=[], **QN)
+
+
+def frob_coeff(tag, file, cfg, ty, names, tables):
+    wrapper = {'Fp2Config': 'Fp2ConfigWrapper', 'Fp3Config': 'Fp3ConfigWrapper', 'Fp4Config': 'Fp4ConfigWrapper',
+               'Fp6Config': 'Fp6ConfigWrapper', 'Fp12Config': 'Fp12ConfigWrapper'}[cfg]
+    ext = 'CubicExtConfig' if len(tables) == 2 else 'QuadExtConfig'
+    args = [(a, ty, a) for a in (['c1', 'c2'] if len(tables) == 2 else ['fe'])]
+    d = dict(name='gen_%s_mul_base_field_by_frob_coeff%s' % (tag, ''), file=file,
+             impl=r'impl<P: %s> %s for %s<P>' % (cfg, ext, wrapper), fn='mul_base_field_by_frob_coeff', method=False,
+             selfty=None, mutrefs=[a[0] for a in args], out=([a[0] for a in args] if len(args) > 1 else args[0][0]),
+             ret='self', args=args + [('power', 'Zint', 'power')],
+             hooks=[H('DEGREE_OVER_BASE_PRIME_FIELD', 'intconst', 'degree')] +
+                   [H('FROBENIUS_COEFF_C%d' % (i + 1), 'table', 'coeff%d' % (i + 1), ret='K') for i in range(len(tables))])
+    if names:
+        d['argnames'] = {a[0]: names for a in args}
+    return d
+
+
+TARGETS3B = [
+    # ---- B: cubic norm, by-value operator wrappers, cyclotomic inverses, mul_by_fp helpers, Frobenius tables
+    dict(name='gen_cubic_norm', file=CE, impl=r'impl<P: CubicExtConfig> CubicExtField<P>', fn='norm', args=[], ret='K',
+         may_panic=True, hooks=C_MUL + [H('frobenius_map_in_place', 'method', 'frob', ['nat'], recv='Cubic', keep_args=True)], **CN),
+    dict(name='gen_sw_sub_assign', file=SWG, impl=r"impl<'a, P: SWCurveConfig> SubAssign<&'a Self> for Projective<P>",
+         fn='sub_assign', args=[('other', 'SWProj', 'Q')], argnames={'other': ['x2', 'y2', 'z2']}, ret='self',
+         hooks=SW_HOOKS, **SWN),
+    dict(name='gen_sw_sub_assign_affine', file=SWG,
+         impl=r'impl<P: SWCurveConfig, T: Borrow<Affine<P>>> SubAssign<T> for Projective<P>', fn='sub_assign',
+         callname='sub_assign_SWAffS', args=[('other', 'SWAffS', 'A')], argnames={'other': ['x2', 'y2', 'inf2']}, ret='self',
+         hooks=SW_HOOKS, **SWN),
+    dict(name='gen_te_sub_assign', file=TEG, impl=r"impl<'a, P: TECurveConfig> SubAssign<&'a Self> for Projective<P>",
+         fn='sub_assign', args=[('other', 'TEProj', 'Q')], argnames={'other': ['x2', 'y2', 't2', 'z2']}, ret='self',
+         hooks=TE_HOOKS, **TEN),
+    dict(name='gen_te_sub_assign_affine', file=TEG,
+         impl=r'impl<P: TECurveConfig, T: Borrow<Affine<P>>> SubAssign<T> for Projective<P>', fn='sub_assign',
+         callname='sub_assign_TEAff', args=[('other', 'TEAff', 'A')], argnames={'other': ['x2', 'y2']}, ret='self',
+         hooks=TE_HOOKS, **TEN),
+    cyc_inv('fp2', FP2, 'Fp2Config'), cyc_inv('fp4', FP4, 'Fp4Config'), cyc_inv('fp6_2over3', F6B, 'Fp6Config'),
+    cyc_inv('fp12', F12, 'Fp12Config'),
+    dict(name='gen_fp2_mul_assign_by_fp', file=FP2, impl=r'impl<P: Fp2Config> Fp2<P>', fn='mul_assign_by_fp',
+         args=[('other', 'K', 'e')], ret='self', hooks=[], **QN),
+    dict(name='gen_fp3_mul_assign_by_fp', file=FP3, impl=r'impl<P: Fp3Config> Fp3<P>', fn='mul_assign_by_fp',
+         args=[('value', 'K', 'e')], ret='self', hooks=[], **CN),
+    dict(name='gen_fp4_mul_by_fp', file=FP4, impl=r'impl<P: Fp4Config> Fp4<P>', fn='mul_by_fp',
+         args=[('element', 'K', 'e')], ret='self', hooks=[], **QQN),
+    dict(name='gen_fp4_mul_by_fp2', file=FP4, impl=r'impl<P: Fp4Config> Fp4<P>', fn='mul_by_fp2',
+         args=[('element', 'K', 'e')], ret='self', hooks=[], **QN),
+    dict(name='gen_fp6_3over2_mul_assign_by_fp2', file=F6A, impl=r'impl<P: Fp6Config> Fp6<P>', fn='mul_assign_by_fp2',
+         args=[('other', 'K', 'e')], ret='self', hooks=[], **CN),
+    dict(name='gen_fp6_3over2_mul_by_fp', file=F6A, impl=r'impl<P: Fp6Config> Fp6<P>', fn='mul_by_fp',
+         args=[('element', 'K', 'e')], ret='self', hooks=[], **CQN),
+    dict(name='gen_fp6_3over2_mul_by_fp2', file=F6A, impl=r'impl<P: Fp6Config> Fp6<P>', fn='mul_by_fp2',
+         args=[('element', 'K', 'e')], ret='self', hooks=[], **CN),
+    dict(name='gen_fp12_mul_by_fp', file=F12, impl=r'impl<P: Fp12Config> Fp12<P>', fn='mul_by_fp',
+         args=[('element', 'K', 'e')], ret='self', hooks=[], **QCQN),
+    frob_coeff('fp2', FP2, 'Fp2Config', 'K', None, [1]),
+    frob_coeff('fp3', FP3, 'Fp3Config', 'K', None, [1, 2]),
+    frob_coeff('fp4', FP4, 'Fp4Config', 'Quad', ['fe0', 'fe1'], [1]),
+    frob_coeff('fp6_2over3', F6B, 'Fp6Config', 'Cubic', ['fe0', 'fe1', 'fe2'], [1]),
+    frob_coeff('fp6_3over2', F6A, 'Fp6Config', 'K', None, [1, 2]),
+    frob_coeff('fp12', F12, 'Fp12Config', 'Cubic', ['fe0', 'fe1', 'fe2'], [1]),
+    # ---- B: cofactor multiplication / clearing (trait defaults) and Budroni-Pintore clearing on bls12_381 G2
+    dict(name='gen_te_aff_mul_by_cofactor_to_group', file=TEA, impl=r'impl<P: TECurveConfig> AffineRepr for Affine<P>',
+         fn='mul_by_cofactor_to_group', selfty='TEAff', selfparam='A', selfnames=['x', 'y'], args=[], ret='TEProj',
+         hooks=[H('Self::Config::COFACTOR', 'const', 'cofactor', ret='Scalar'),
+                H('mul_affine', 'fn', 'mul_affine', ['TEAff', 'Scalar'], 'TEProj')]),
+    dict(name='gen_sw_aff_mul_by_cofactor', file='ec/src/lib.rs', impl=r'pub trait AffineRepr\b', fn='mul_by_cofactor',
+         selfty='SWAffS', selfparam='A', selfnames=['x', 'y', 'inf'], args=[], ret='SWAffS', may_panic=True, group_ops=True,
+         aff_of={'SWProj': 'SWAffS'},
+         hooks=[H('Self::Config::COFACTOR', 'const', 'cofactor', ret='Scalar'),
+                H('mul_affine', 'fn', 'mul_affine', ['SWAffS', 'Scalar'], 'SWProj')]),
+    dict(name='gen_te_aff_mul_by_cofactor', file='ec/src/lib.rs', impl=r'pub trait AffineRepr\b', fn='mul_by_cofactor',
+         selfty='TEAff', selfparam='A', selfnames=['x', 'y'], args=[], ret='TEAff', may_panic=True, group_ops=True,
+         aff_of={'TEProj': 'TEAff'},
+         hooks=[H('Self::Config::COFACTOR', 'const', 'cofactor', ret='Scalar'),
+                H('mul_affine', 'fn', 'mul_affine', ['TEAff', 'Scalar'], 'TEProj')]),
+    dict(name='gen_sw_default_clear_cofactor', file=SWM, impl=r'pub trait SWCurveConfig\b', fn='clear_cofactor',
+         method=False, selfty=None, args=[('item', 'SWAffS', 'A')], argnames={'item': ['x', 'y', 'inf']}, ret='SWAffS',
+         may_panic=True, group_ops=True,
+         hooks=[H('Self::Config::COFACTOR', 'const', 'cofactor', ret='Scalar'),
+                H('mul_affine', 'fn', 'mul_affine', ['SWAffS', 'Scalar'], 'SWProj')]),
+    dict(name='gen_te_default_clear_cofactor', file=TEM, impl=r'pub trait TECurveConfig\b', fn='clear_cofactor',
+         method=False, selfty=None, args=[('item', 'TEAff', 'A')], argnames={'item': ['x', 'y']}, ret='TEAff',
+         may_panic=True, group_ops=True,
+         hooks=[H('Self::Config::COFACTOR', 'const', 'cofactor', ret='Scalar'),
+                H('mul_affine', 'fn', 'mul_affine', ['TEAff', 'Scalar'], 'TEProj')]),
+    dict(name='gen_bls12_381_g2_clear_cofactor', file='curves/bls12_381/src/curves/g2.rs',
+         impl=r'impl SWCurveConfig for Config', fn='clear_cofactor', method=False, selfty=None, may_panic=True,
+         group_ops=True, aff_of={'SWProj': 'SWAffS'}, proj_of={'SWAffS': 'SWProj'},
+         args=[('p', 'SWAffS', 'A')], argnames={'p': ['x', 'y', 'inf']}, ret='SWAffS',
+         hooks=[H('crate::Config::X', 'const', 'x_abs', ret='Scalar'),
+                H('Config::mul_affine', 'fn', 'mul_affine', ['SWAffS', 'Scalar'], 'SWProj'),
+                H('mul_bigint', 'pmethod', 'mul_projective', ['Scalar'], 'SWProj', recv='SWProj'),
+                H('p_power_endomorphism', 'fn', 'p_power_endomorphism', ['SWAffS'], 'SWAffS'),
+                H('double_p_power_endomorphism', 'fn', 'double_p_power_endomorphism', ['SWProj'], 'SWProj')] + SW_HOOKS),
+    # ---- C (part): point serialisation.  The writer is the list of items written, in order: (field element, Some flags)
+    # for `serialize_with_flags`, (field element, None) for a plain field serialisation; sizes of field encodings are
+    # parameters.  `Compress` is a boolean (Yes = true).
+    dict(name='gen_swflags_infinity', file='ec/src/models/short_weierstrass/serialization_flags.rs', impl=r'impl SWFlags',
+         fn='infinity', method=False, selfty='enum:SWFlags', args=[], ret='enum:SWFlags', enums={'Self': 'SWFlags'}, hooks=[]),
+    dict(name='gen_sw_serialize_with_mode', file=SWM, impl=r'pub trait SWCurveConfig\b', fn='serialize_with_mode',
+         method=False, selfty=None, ret='self', out='writer', ctors={'SWFlags': 'enum:SWFlags'},
+         args=[('item', 'SWAffS', 'A'), ('writer', 'Writer:SWFlags', 'w'), ('compress', 'bool', 'compress')],
+         argnames={'item': ['x', 'y', 'inf']},
+         hooks=[LT, LE, H('serialize_with_flags', 'emit', '_emit_flags', ['writer', 'flags']),
+                H('serialize_with_mode', 'emit', '_emit_plain', ['writer', 'bool'])]),
+    dict(name='gen_sw_serialized_size', file=SWM, impl=r'pub trait SWCurveConfig\b', fn='serialized_size',
+         method=False, selfty=None, args=[('compress', 'bool', 'compress')], ret='Zint',
+         hooks=[H('serialized_size_with_flags::<SWFlags>', 'sizeconst', 'size_with_flags'),
+                H('compressed_size', 'sizeconst', 'size_plain')]),
+    dict(name='gen_te_serialize_with_mode', file=TEM, impl=r'pub trait TECurveConfig\b', fn='serialize_with_mode',
+         method=False, selfty=None, ret='self', out='writer', ctors={'TEFlags': 'enum:TEFlags'},
+         args=[('item', 'TEAff', 'A'), ('writer', 'Writer:TEFlags', 'w'), ('compress', 'bool', 'compress')],
+         argnames={'item': ['x', 'y']},
+         hooks=[LT, LE, H('serialize_with_flags', 'emit', '_emit_flags', ['writer', 'flags']),
+                H('serialize_uncompressed', 'emit', '_emit_plain', ['writer'])]),
+    dict(name='gen_te_serialized_size', file=TEM, impl=r'pub trait TECurveConfig\b', fn='serialized_size',
+         method=False, selfty=None, args=[('compress', 'bool', 'compress')], ret='Zint',
+         hooks=[H('serialized_size_with_flags::<TEFlags>', 'sizeconst', 'size_with_flags'),
+                H('uncompressed_size', 'sizeconst', 'size_plain')]),
+]
+
+TARGETS3 = (
+    # ---- A: per-curve overrides of the non-residue hooks (curves/*/src/fields, test-curves)
+    fq2_overrides('bls12_381', 'curves/bls12_381/src/fields/fq2.rs', 'fp', FQ2_ALL) +
+    fq2_overrides('bls12_377', 'curves/bls12_377/src/fields/fq2.rs', 'fe', FQ2_ALL) +
+    fq2_overrides('bn254', 'curves/bn254/src/fields/fq2.rs', 'fe', FQ2_ALL[:1]) +
+    fq2_overrides('test_bls12_381', 'test-curves/src/bls12_381/fq2.rs', 'fp', FQ2_ALL) +
+    [nr_override('gen_bw6_761_fq3_mul_fp_by_nonresidue', 'curves/bw6_761/src/fields/fq3.rs',
+                 r'impl Fp3Config for Fq3Config', 'mul_fp_by_nonresidue_in_place', ['fe']),
+     nr_override('gen_cp6_782_fq3_mul_fp_by_nonresidue', 'curves/cp6_782/src/fields/fq3.rs',
+                 r'impl Fp3Config for Fq3Config', 'mul_fp_by_nonresidue_in_place', ['fe']),
+     fq6_override('bls12_381', 'curves/bls12_381/src/fields/fq6.rs'),
+     fq6_override('bls12_377', 'curves/bls12_377/src/fields/fq6.rs', [FP2_NR_BELOW]),
+     fq6_override('bn254', 'curves/bn254/src/fields/fq6.rs', [FP2_NR_BELOW]),
+     fq6_override('test_bls12_381', 'test-curves/src/bls12_381/fq6.rs')] +
+    # ---- A: per-curve overrides of SWCurveConfig / TECurveConfig :: mul_by_a
+    [mul_by_a_override(tag, f, kind, arg) for tag, f, kind, arg in MUL_BY_A_SIMPLE] +
+    [dict(mul_by_a_override('mnt4_298_g2', 'curves/mnt4_298/src/curves/g2.rs', 'SW', 'elt', 'Quad', **MNT4_A), hooks=MNT_A_HOOKS[:2]),
+     dict(mul_by_a_override('mnt4_753_g2', 'curves/mnt4_753/src/curves/g2.rs', 'SW', 'elt', 'Quad', **MNT4_A), hooks=MNT_A_HOOKS[:2]),
+     dict(mul_by_a_override('mnt6_298_g2', 'curves/mnt6_298/src/curves/g2.rs', 'SW', 'elt', 'Cubic', **MNT6_A), hooks=MNT_A_HOOKS),
+     dict(mul_by_a_override('mnt6_753_g2', 'curves/mnt6_753/src/curves/g2.rs', 'SW', 'elt', 'Cubic', **MNT6_A), hooks=MNT_A_HOOKS)] +
+    TARGETS3B
+)
+
+# definitions of tables 1 and 2 that the table-3 targets may call (with call-site attributes)
+CALLABLE3 = {
+    'gen_quad_double_in_place': {}, 'gen_quad_is_zero': {}, 'gen_quad_conjugate_in_place': {},
+    'gen_quad_mul_assign': {}, 'gen_cubic_mul_assign': {},
+    'gen_sw_is_zero': {}, 'gen_sw_neg': {'byvalue': True}, 'gen_sw_aff_neg': {'byvalue': True},
+    'gen_sw_add_assign': {}, 'gen_sw_add_assign_affine': {'callname': 'add_assign_SWAff'},
+    'gen_sw_double_in_place': {}, 'gen_sw_from_affine': {}, 'gen_sw_into_affine': {},
+    'gen_te_neg': {'byvalue': True}, 'gen_te_aff_neg': {'byvalue': True}, 'gen_te_add_assign': {}, 'gen_te_add_assign_affine': {'callname': 'add_assign_TEAff'},
+    'gen_te_into_affine': {}, 'gen_te_from_affine': {},
+    'gen_sw_aff_xy': {}, 'gen_sw_aff_mul_by_cofactor_to_group': {},
+    'gen_sw_to_flags': {}, 'gen_te_flags_from_x_coordinate': {'selfty': 'enum:TEFlags'},
+}
+
+HEADER3 = '''(* GENERATED by lib/xlate_field.py --table3 -- do not edit.
+   Phase 4: per-curve overrides of configuration hooks (curves/*/src, test-curves/src), by-value operator
+   wrappers, more tower helpers and cofactor clearing of /repo, one Gallina definition per Rust function,
+   re-generated from the current source text on every check run.  Definitions only; the lemmas tying them
+   to the models are in Gen/GenField3Specs.v.  Configuration constants, tables (`Z -> entry`), scalar
+   multiplications and endomorphisms are parameters.  GPanic: an `assert!` / `unwrap` fails. *)
+From V Require Import Base.Field Gen.GenField Gen.GenField2.
+'''
+
 HEADER2 = '''(* GENERATED by lib/xlate_field.py --table2 -- do not edit.
    Phase 3: hash-to-curve maps, coordinate recovery, subgroup / cofactor code and more tower helpers of
    /repo, one Gallina definition per Rust function, re-generated from the current source text on every
@@ -2353,19 +2797,23 @@ def translate_all(repo, prev_text=None, table=1):
     definition for it the whole translation fails.  table=2: the phase-3 targets (GenField2.v),
     which may call the phase-1/2 definitions listed in CALLABLE2."""
     defs = []
-    for t in (TARGETS if table == 1 else TARGETS2):
+    for t in {1: TARGETS, 2: TARGETS2, 3: TARGETS3}[table]:
         t = dict(t)
         if t['name'] in NO_METHOD:
             t['method_lookup'] = False
         defs.append(t)
     prev = split_defs(prev_text) if prev_text else {}
-    out = [HEADER if table == 1 else HEADER2]
+    out = [{1: HEADER, 2: HEADER2, 3: HEADER3}[table]]
     cache = {}
     done = []
     if table == 2:
         for t in TARGETS:
             if t['name'] in CALLABLE2:
                 done.append(dict(t, **CALLABLE2[t['name']]))
+    if table == 3:
+        for t in TARGETS + TARGETS2:
+            if t['name'] in CALLABLE3:
+                done.append(dict(t, **CALLABLE3[t['name']]))
     failures = []
     for t in defs:
         path = os.path.join(repo, t['file'])
@@ -2403,10 +2851,10 @@ def write_if_changed(path, text):
 
 
 if __name__ == '__main__':
-    argv = [a for a in sys.argv[1:] if a != '--table2']
-    table = 2 if '--table2' in sys.argv[1:] else 1
+    argv = [a for a in sys.argv[1:] if a not in ('--table2', '--table3')]
+    table = 3 if '--table3' in sys.argv[1:] else 2 if '--table2' in sys.argv[1:] else 1
     repo = argv[0] if len(argv) > 0 else '/repo'
-    dst = argv[1] if len(argv) > 1 else ('/verif/coq/Gen/GenField.v' if table == 1 else '/verif/coq/Gen/GenField2.v')
+    dst = argv[1] if len(argv) > 1 else '/verif/coq/Gen/GenField%s.v' % {1: '', 2: '2', 3: '3'}[table]
     try:
         prev = open(dst).read() if os.path.exists(dst) else None
         t, failures = translate_all(repo, prev, table)
